@@ -47,6 +47,7 @@ AUTOMUT_TRIAGE = [
 
 def run(chk):
     repo = chk.repo
+    cm.schema(chk, repo, "C01")
     chk.rule("C01.D1", "cell == edges/n, edges == pmax-pmin, len == prod(n) (term normal form of the getters)")
     v = FV(repo, "mesh.Mesh.cell")
     r, t = _single_return(v)
